@@ -143,7 +143,7 @@ def gen_case(rng, tier):
             "allow_outer": rng.choice([True, True, False, False, "only"]),
             "minimize": rng.choice(OBJECTIVES), "temperature": rng.choice([0.01, 0.01, 0.3, 2.0]),
             "seed": rng.randrange(1 << 30), "repeats": rng.choice([1, 2, 4, 8, 16]),
-            "chain_seed": rng.randrange(1 << 30)}
+            "chain_seed": rng.randrange(1 << 30), "via_info": rng.random() < 0.15}
 
 
 class RecDict(dict):
@@ -211,7 +211,15 @@ def observe(case):
     us = gen.unsym(net)
     obs = {"m0": int(tree.multiplicity), "flops0": int(tree.total_flops()),
            "bt": gen.bt_of_real(tree)}
-    sf = SliceFinder(tree, **finder_kwargs(case))
+    if case.get("via_info") and not case["pre"]:
+        # the finder is handed an `opt_einsum.PathInfo` of the same contraction path instead of the tree
+        # (slicer.py:113-117 `ContractionCosts.from_info`); everything is still judged against the tree
+        import opt_einsum as oe
+        info = oe.contract_path(net.eq(), *net.shapes(), shapes=True, optimize=tree.get_path())[1]
+        sf = SliceFinder(info, **finder_kwargs(case))
+        obs["via_info"] = True
+    else:
+        sf = SliceFinder(tree, **finder_kwargs(case))
     rec = RecDict(sf.costs)
     sf.costs = rec
     obs["forbidden"] = sorted(us[i] for i in sf.forbidden)
@@ -321,6 +329,16 @@ def oracle(case, obs, net, tree):
     """Property oracle on the implementation alone. Returns None or (kind, detail). The first call uses the
     constructor's targets; every later call on the same finder is judged against the targets in force for it
     (per-call value, else the constructor's)."""
+    if obs.get("via_info"):
+        # the baseline cost model built from the PathInfo must be the tree's: same contraction tuples
+        us = gen.unsym(net)
+        real = sorted(json.dumps({"involved": sorted(us[i] for i in tree.get_involved(nd)),
+                                  "legs": sorted(us[i] for i in tree.get_legs(nd)),
+                                  "size": int(tree.get_size(nd)), "flops": int(tree.get_flops(nd))}, sort_keys=True)
+                      for nd in tree.info if len(nd) != 1)
+        got = sorted(json.dumps(c, sort_keys=True) for c in obs["cons"])
+        if real != got:
+            return ("from_info:baseline-differs-from-tree", {"finder": obs["cons"][:4], "tree": real[:4]})
     if obs["status"] != "ok":
         return None        # the property only speaks about searches that return
     r = oracle_one(case, obs, net, tree, obs, case["targets"])
@@ -656,6 +674,8 @@ def check_case(ctx, drv, case):
     ctx.count("objective:" + case["minimize"].split("-")[0])
     ctx.count("status:" + obs["status"])
     ctx.count("pre:%d" % len(case["pre"]))
+    if obs.get("via_info"):
+        ctx.count("finder-from-PathInfo")
     ctx.count("trials", len(obs["picks"]))
     ctx.count("picks", sum(len(p) for p in obs["picks"]))
     ctx.count("cache_entries", len(obs["cache"]))
